@@ -6,6 +6,7 @@ V=/verif; mkdir -p $V/work $V/replays $V/evidence
 set -e
 cargo build --release --quiet --target-dir $V/target
 cargo build --profile dbg --quiet --target-dir $V/target
+cargo build --quiet --target-dir $V/target
 RUSTFLAGS="-Zsanitizer=address -Cforce-frame-pointers=yes" cargo +nightly build --release --quiet --target x86_64-unknown-linux-gnu --target-dir $V/target-asan
 RUSTFLAGS="-Zsanitizer=thread" cargo +nightly build --release --quiet -Zbuild-std --target x86_64-unknown-linux-gnu --target-dir $V/target-tsan
 MIRIFLAGS="-Zmiri-tree-borrows -Zmiri-disable-isolation" cargo +nightly miri run --quiet --target-dir $V/target-miri --bin vcheck -- help >/dev/null 2>&1 || true
